@@ -1,7 +1,911 @@
-//! C07 engine (not yet built).
-use crate::common::{CaseWriter, Opts};
+//! C07 — imports resolve, load and evaluate as specified.
+//!
+//! A *scenario* is a JSON value: a sandbox file-system layout (directories, files with exact
+//! bytes, symlinks), an importer directory, the library search path and a list of top-level
+//! operations (import / importstr / importbin with a path spelling, optionally with a resolver
+//! fault injected at the k-th resolver call of that operation).  All operations of a scenario run
+//! on ONE evaluation state.  The scenario JSON is the single source of truth: it is materialised
+//! on the real file system under the engine's out dir and given verbatim to the Lean driver.
+//!
+//! engine `c07`    : the real `State` + the real `FileImportResolver` wrapped in a recording
+//!                   resolver (log of every resolve/load call and its result, fault injection);
+//!                   writes `import.replay` (full log + outcomes, compared with the Lean model) and
+//!                   `import.outcomes` (outcomes only, compared with the cache-free reference).
+//! engine `c07cli` : the real `jrsonnet` binary with `-J` flags and `JSONNET_PATH`
+//!                   (search-path assembly of `MiscOpts::import_resolver` + `main` wiring);
+//!                   writes `import.cli`.
+use std::{
+	cell::{Cell, RefCell},
+	collections::BTreeMap,
+	fs,
+	path::{Path, PathBuf},
+	process::Command,
+};
+
+use jrsonnet_evaluator::{
+	error::{Error, ErrorKind},
+	manifest::JsonFormat,
+	trace::PathResolver,
+	AsPathLike, FileImportResolver, ImportResolver, Result as JrResult, State,
+};
+use jrsonnet_gcmodule::Acyclic;
+use jrsonnet_ir::{SourceDirectory, SourceFile, SourcePath};
+use serde_json::{json, Value};
+
+use crate::common::{guarded, CaseWriter, Opts, Rng};
+
+// ------------------------------------------------------------------------------------------
+// recording / faulting resolver
+// ------------------------------------------------------------------------------------------
+
+thread_local! {
+	static LOG: RefCell<Vec<Value>> = const { RefCell::new(Vec::new()) };
+	static CALLS: Cell<usize> = const { Cell::new(0) };
+	/// (k, mode): the k-th resolver call (1-based, resolve and load calls counted together) of the
+	/// current top-level operation is disturbed. mode "fail": the call returns an I/O error
+	/// without reaching the real resolver; mode "vanish": if the call is a load, the file is
+	/// removed from disk first and the REAL resolver reports what it then sees.
+	static FAULT: RefCell<Option<(usize, String)>> = const { RefCell::new(None) };
+	static ROOT: RefCell<PathBuf> = RefCell::new(PathBuf::new());
+	static VANISHED: RefCell<Vec<(PathBuf, Vec<u8>)>> = const { RefCell::new(Vec::new()) };
+}
+
+fn rel_of(p: &Path) -> String {
+	ROOT.with_borrow(|r| match p.strip_prefix(r) {
+		Ok(x) => x.to_string_lossy().into_owned(),
+		Err(_) => format!("<outside>{}", p.display()),
+	})
+}
+fn show_source(p: &SourcePath) -> String {
+	if let Some(f) = p.downcast_ref::<SourceFile>() {
+		format!("f:{}", rel_of(f.path()))
+	} else if let Some(d) = p.downcast_ref::<SourceDirectory>() {
+		format!("d:{}", rel_of(d.path()))
+	} else if p.is_default() {
+		"default".to_owned()
+	} else {
+		format!("?{p}")
+	}
+}
+fn show_spelling(p: &dyn AsPathLike) -> String {
+	let s = p.as_path().to_owned().to_string();
+	let root = ROOT.with_borrow(|r| r.to_string_lossy().into_owned());
+	s.replace(&root, "<R>")
+}
+
+pub fn cls(e: &Error) -> &'static str {
+	use ErrorKind::*;
+	match e.error() {
+		ImportFileNotFound(..) => "notfound",
+		ResolvedFileNotFound(..) => "resolved-missing",
+		ImportBadFileUtf8(..) => "utf8",
+		ImportIo(..) => "io",
+		ImportNotSupported(..) => "unsupported",
+		ImportIsADirectory(..) => "isdir",
+		ImportSyntaxError { .. } => "syntax",
+		InfiniteRecursionDetected => "infrec",
+		StackOverflow => "stack",
+		RuntimeError(m) if m.contains("special file") => "special",
+		_ => "other",
+	}
+}
+
+#[derive(Acyclic)]
+struct Rec {
+	inner: FileImportResolver,
+}
+impl Rec {
+	fn tick() -> (usize, Option<String>) {
+		let n = CALLS.get() + 1;
+		CALLS.set(n);
+		let mode = FAULT.with_borrow(|f| match f {
+			Some((k, m)) if *k == n => Some(m.clone()),
+			_ => None,
+		});
+		(n, mode)
+	}
+	fn do_resolve(&self, from: &SourcePath, path: &dyn AsPathLike) -> JrResult<SourcePath> {
+		let (_n, mode) = Self::tick();
+		let r = if mode.as_deref() == Some("fail") {
+			Err(ErrorKind::ImportIo("injected resolver fault".to_owned()).into())
+		} else {
+			self.inner.resolve_from(from, path)
+		};
+		let shown = match &r {
+			Ok(p) => format!("ok:{}", show_source(p)),
+			Err(e) => format!("err:{}", cls(e)),
+		};
+		LOG.with_borrow_mut(|l| l.push(json!(["r", show_source(from), show_spelling(path), shown])));
+		r
+	}
+}
+impl ImportResolver for Rec {
+	fn resolve_from(&self, from: &SourcePath, path: &dyn AsPathLike) -> JrResult<SourcePath> {
+		self.do_resolve(from, path)
+	}
+	fn resolve_from_default(&self, path: &dyn AsPathLike) -> JrResult<SourcePath> {
+		self.do_resolve(&SourcePath::default(), path)
+	}
+	fn load_file_contents(&self, resolved: &SourcePath) -> JrResult<Vec<u8>> {
+		let (_n, mode) = Self::tick();
+		let r = match mode.as_deref() {
+			Some("fail") => Err(ErrorKind::ImportIo("injected loader fault".to_owned()).into()),
+			Some("vanish") => {
+				if let Some(p) = resolved.path() {
+					if let Ok(old) = fs::read(p) {
+						let _ = fs::remove_file(p);
+						VANISHED.with_borrow_mut(|v| v.push((p.to_owned(), old)));
+					}
+				}
+				self.inner.load_file_contents(resolved)
+			}
+			_ => self.inner.load_file_contents(resolved),
+		};
+		let shown = match &r {
+			Ok(_) => "ok".to_owned(),
+			Err(e) => format!("err:{}", cls(e)),
+		};
+		LOG.with_borrow_mut(|l| l.push(json!(["l", show_source(resolved), shown])));
+		r
+	}
+}
+
+// ------------------------------------------------------------------------------------------
+// scenario JSON helpers
+// ------------------------------------------------------------------------------------------
+
+fn comps(v: &Value) -> Vec<String> {
+	v.as_array()
+		.map(|a| a.iter().filter_map(|x| x.as_str().map(str::to_owned)).collect())
+		.unwrap_or_default()
+}
+fn join(root: &Path, c: &[String]) -> PathBuf {
+	let mut p = root.to_owned();
+	for x in c {
+		p.push(x);
+	}
+	p
+}
+/// text of a spelling `{"abs":bool,"c":[..]}`; `root` is the textual sandbox root
+fn spelling_text(sp: &Value, root: &str) -> String {
+	let c = comps(&sp["c"]).join("/");
+	if sp["abs"].as_bool() == Some(true) {
+		format!("{root}/{c}")
+	} else {
+		c
+	}
+}
+fn bytes_of(v: &Value) -> Vec<u8> {
+	v.as_array()
+		.map(|a| a.iter().map(|x| x.as_u64().unwrap_or(0) as u8).collect())
+		.unwrap_or_default()
+}
+
+/// writes the layout of `sc["fs"]` under `root` (fresh directory)
+fn materialise(sc: &Value, root: &Path) {
+	let _ = fs::remove_dir_all(root);
+	fs::create_dir_all(root).expect("mkdir sandbox");
+	let Some(nodes) = sc["fs"].as_array() else { return };
+	// directories first (shortest first), then files, then links
+	let mut dirs: Vec<Vec<String>> = nodes
+		.iter()
+		.filter(|n| n["k"] == "dir")
+		.map(|n| comps(&n["p"]))
+		.collect();
+	dirs.sort_by_key(Vec::len);
+	for d in dirs {
+		fs::create_dir_all(join(root, &d)).expect("mkdir");
+	}
+	for n in nodes {
+		if n["k"] == "file" {
+			fs::write(join(root, &comps(&n["p"])), bytes_of(&n["bytes"])).expect("write file");
+		}
+	}
+	for n in nodes {
+		if n["k"] == "link" {
+			#[cfg(unix)]
+			std::os::unix::fs::symlink(join(root, &comps(&n["to"])), join(root, &comps(&n["p"])))
+				.expect("symlink");
+		}
+	}
+}
+
+fn outcome_err(e: &Error) -> Value {
+	json!({"err": cls(e), "_msg": format!("{}", e.error())})
+}
+
+/// runs all operations of a scenario on one fresh state; returns per-op (outcome, log)
+fn run_scenario(sc: &Value, root: &Path) -> Vec<(Value, Vec<Value>)> {
+	materialise(sc, root);
+	ROOT.set(root.to_owned());
+	let root_s = root.to_string_lossy().into_owned();
+	let jpaths: Vec<PathBuf> = sc["jpaths"]
+		.as_array()
+		.map(|a| a.iter().map(|j| join(root, &comps(j))).collect())
+		.unwrap_or_default();
+	let mut b = State::builder();
+	b.context_initializer(jrsonnet_stdlib::ContextInitializer::new(
+		PathResolver::new_cwd_fallback(),
+	))
+	.import_resolver(Rec {
+		inner: FileImportResolver::new(jpaths),
+	});
+	let s = b.build();
+	let from = SourcePath::new(SourceDirectory::new(join(root, &comps(&sc["from"]))));
+	let mut out = Vec::new();
+	let empty = Vec::new();
+	for op in sc["ops"].as_array().unwrap_or(&empty) {
+		LOG.with_borrow_mut(Vec::clear);
+		CALLS.set(0);
+		let fault = op["fault"].as_u64().map(|k| {
+			(
+				k as usize,
+				op["fmode"].as_str().unwrap_or("fail").to_owned(),
+			)
+		});
+		FAULT.set(fault);
+		let sp = spelling_text(&op["sp"], &root_s);
+		let kind = op["kind"].as_str().unwrap_or("import").to_owned();
+		let res = guarded(|| -> Value {
+			let _entered = s.enter();
+			match kind.as_str() {
+				"import" => {
+					let r = s
+						.import_from(&from, sp.as_str())
+						.and_then(|v| v.manifest(JsonFormat::minify()));
+					match r {
+						Ok(text) => match text.parse::<u64>() {
+							Ok(n) => json!({"num": n}),
+							Err(_) => json!({"other": text}),
+						},
+						Err(e) => outcome_err(&e),
+					}
+				}
+				"str" => match s
+					.resolve_from(&from, &sp.as_str())
+					.and_then(|p| s.import_resolved_str(p))
+				{
+					Ok(v) => json!({"str": v.chars().map(|c| c as u32).collect::<Vec<_>>()}),
+					Err(e) => outcome_err(&e),
+				},
+				_ => match s
+					.resolve_from(&from, &sp.as_str())
+					.and_then(|p| s.import_resolved_bin(p))
+				{
+					Ok(v) => json!({"bin": v.as_slice().to_vec()}),
+					Err(e) => outcome_err(&e),
+				},
+			}
+		});
+		FAULT.set(None);
+		// a vanished file comes back once the fault has cleared
+		VANISHED.with_borrow_mut(|v| {
+			for (p, data) in v.drain(..) {
+				let _ = fs::write(p, data);
+			}
+		});
+		let outcome = match res {
+			Ok(v) => v,
+			Err(p) => json!({"panic": p}),
+		};
+		out.push((outcome, LOG.with_borrow(Clone::clone)));
+	}
+	out
+}
+
+/// "read at most once": per resolved file, loader calls <= 1 + loader calls that failed or whose
+/// bytes were rejected (the operation they belong to ended in a utf8 error for that file)
+fn once_only(results: &[(Value, Vec<Value>)]) -> bool {
+	let mut loads: BTreeMap<String, usize> = BTreeMap::new();
+	let mut failed: BTreeMap<String, usize> = BTreeMap::new();
+	for (outcome, log) in results {
+		let n = log.len();
+		for (i, e) in log.iter().enumerate() {
+			if e[0] == "l" {
+				let p = e[1].as_str().unwrap_or("").to_owned();
+				*loads.entry(p.clone()).or_default() += 1;
+				let rejected = i + 1 == n && outcome["err"] == "utf8";
+				if e[2] != "ok" || rejected {
+					*failed.entry(p).or_default() += 1;
+				}
+			}
+		}
+	}
+	loads
+		.iter()
+		.all(|(p, n)| *n <= 1 + failed.get(p).copied().unwrap_or(0))
+}
+
+// ------------------------------------------------------------------------------------------
+// generator
+// ------------------------------------------------------------------------------------------
+
+#[derive(Clone, Debug)]
+enum E {
+	Lit(u64),
+	Imp(&'static str, Value),
+	Add(Box<E>, Box<E>),
+	Pick(Box<E>, Box<E>),
+}
+impl E {
+	fn json(&self) -> Value {
+		match self {
+			E::Lit(n) => json!({"k":"lit","n":n}),
+			E::Imp(kind, sp) => json!({"k":"imp","kind":kind,"sp":sp}),
+			E::Add(a, b) => json!({"k":"add","a":a.json(),"b":b.json()}),
+			E::Pick(a, b) => json!({"k":"pick","a":a.json(),"b":b.json()}),
+		}
+	}
+	fn src(&self, root: &str) -> String {
+		match self {
+			E::Lit(n) => format!("{n}"),
+			E::Imp("import", sp) => format!("(import \"{}\")", spelling_text(sp, root)),
+			E::Imp("str", sp) => format!(
+				"std.foldl(function(a, c) (a * 31 + std.codepoint(c)) % 65521, std.stringChars(importstr \"{}\"), 7)",
+				spelling_text(sp, root)
+			),
+			E::Imp(_, sp) => format!(
+				"std.foldl(function(a, c) (a * 31 + c) % 65521, importbin \"{}\", 7)",
+				spelling_text(sp, root)
+			),
+			E::Add(a, b) => format!("({} + {})", a.src(root), b.src(root)),
+			E::Pick(a, b) => format!("{{ u: {}, v: {} }}.u", a.src(root), b.src(root)),
+		}
+	}
+}
+
+fn sp(abs: bool, c: &[&str]) -> Value {
+	let parts: Vec<&str> = c.iter().flat_map(|x| x.split('/')).collect();
+	json!({"abs": abs, "c": parts})
+}
+fn imp(kind: &'static str, c: &[&str]) -> E {
+	E::Imp(kind, sp(false, c))
+}
+fn add(a: E, b: E) -> E {
+	E::Add(Box::new(a), Box::new(b))
+}
+fn pick(a: E, b: E) -> E {
+	E::Pick(Box::new(a), Box::new(b))
+}
+
+struct Builder {
+	root: String,
+	nodes: Vec<Value>,
+	have: Vec<Vec<String>>,
+}
+impl Builder {
+	fn new(root: &str) -> Self {
+		Self {
+			root: root.to_owned(),
+			nodes: Vec::new(),
+			have: Vec::new(),
+		}
+	}
+	fn taken(&mut self, p: &[&str]) -> bool {
+		let v: Vec<String> = p.iter().map(|s| (*s).to_owned()).collect();
+		if self.have.contains(&v) {
+			return true;
+		}
+		self.have.push(v);
+		false
+	}
+	fn dir(&mut self, p: &[&str]) {
+		if !self.taken(p) {
+			self.nodes.push(json!({"k":"dir","p":p}));
+		}
+	}
+	fn code(&mut self, p: &[&str], e: &E) {
+		if !self.taken(p) {
+			let text = e.src(&self.root);
+			self.nodes.push(
+				json!({"k":"file","p":p,"bytes":text.as_bytes(),"code":e.json(),"_text":text}),
+			);
+		}
+	}
+	/// raw bytes; `code`: "syntax" (does not parse) or a literal number the text parses to
+	fn raw(&mut self, p: &[&str], bytes: &[u8], code: Value) {
+		if !self.taken(p) {
+			self.nodes.push(json!({"k":"file","p":p,"bytes":bytes,"code":code}));
+		}
+	}
+	fn link(&mut self, p: &[&str], to: &[&str]) {
+		if !self.taken(p) {
+			self.nodes.push(json!({"k":"link","p":p,"to":to}));
+		}
+	}
+}
+
+fn op(kind: &str, s: Value) -> Value {
+	json!({"kind": kind, "sp": s, "fault": null})
+}
+fn op_fault(kind: &str, s: Value, k: usize, mode: &str) -> Value {
+	json!({"kind": kind, "sp": s, "fault": k, "fmode": mode})
+}
+
+fn scenario(b: Builder, from: &[&str], jpaths: &[&[&str]], ops: Vec<Value>, shape: &str) -> Value {
+	let size = b.nodes.len() + 2 * ops.len()
+		+ b.nodes.iter().map(|n| n["bytes"].as_array().map_or(0, Vec::len) / 40).sum::<usize>();
+	json!({"fs": b.nodes, "from": from, "jpaths": jpaths, "ops": ops, "_shape": shape, "size": size})
+}
+
+const UTF8_TEXT: &str = "h\u{e9}\u{3bb}\u{2713} \u{1F600}\n";
+const BAD_UTF8: &[u8] = &[0x61, 0xff, 0xfe, 0x00, 0x80, 0x62];
+
+/// the standard directory skeleton
+fn skeleton(b: &mut Builder) {
+	b.dir(&["d"]);
+	b.dir(&["d", "sub"]);
+	b.dir(&["J1"]);
+	b.dir(&["J2"]);
+	b.dir(&["E1"]);
+}
+
+/// hand-written shapes (each returned with the number of resolver calls of its first operation
+/// so that a fault can be placed at every step)
+fn systematic(root: &str) -> Vec<Value> {
+	let mut out = Vec::new();
+	let jp: &[&[&str]] = &[&["J2"], &["J1"], &["E1"]];
+	let mut push = |name: &str, build: &dyn Fn(&mut Builder), ops: Vec<Value>| {
+		let mut b = Builder::new(root);
+		skeleton(&mut b);
+		build(&mut b);
+		out.push(scenario(b, &["d"], jp, ops, name));
+	};
+	let a = || sp(false, &["a.j"]);
+	// tree
+	let tree = |b: &mut Builder| {
+		b.code(&["d", "a.j"], &add(imp("import", &["b.j"]), imp("import", &["c.j"])));
+		b.code(&["d", "b.j"], &E::Lit(2));
+		b.code(&["d", "c.j"], &add(E::Lit(3), imp("import", &["b.j"])));
+		b.code(&["d", "z.j"], &E::Lit(9));
+	};
+	push("tree", &tree, vec![op("import", a()), op("import", a()), op("import", sp(false, &["c.j"]))]);
+	// diamond, e reached over three spellings and a symlink
+	let diamond = |b: &mut Builder| {
+		b.code(&["d", "a.j"], &add(imp("import", &["b.j"]), imp("import", &["./c.j"])));
+		b.code(&["d", "b.j"], &add(E::Lit(1), imp("import", &["../d/e.j"])));
+		b.code(&["d", "c.j"], &add(imp("import", &["se.j"]), imp("import", &["sub/../e.j"])));
+		b.code(&["d", "e.j"], &add(E::Lit(5), imp("str", &["t.txt"])));
+		b.raw(&["d", "t.txt"], UTF8_TEXT.as_bytes(), json!("syntax"));
+		b.link(&["d", "se.j"], &["d", "e.j"]);
+		b.code(&["d", "z.j"], &E::Lit(9));
+	};
+	push(
+		"diamond",
+		&diamond,
+		vec![op("import", a()), op("str", sp(false, &["e.j"])), op("bin", sp(false, &["se.j"])), op("import", sp(false, &["e.j"]))],
+	);
+	// cycles
+	let selfc = |b: &mut Builder| {
+		b.code(&["d", "a.j"], &add(E::Lit(1), imp("import", &["./a.j"])));
+		b.code(&["d", "z.j"], &E::Lit(9));
+	};
+	push("self-cycle", &selfc, vec![op("import", a()), op("import", a()), op("import", sp(false, &["z.j"])), op("str", a())]);
+	let two = |b: &mut Builder| {
+		b.code(&["d", "a.j"], &add(E::Lit(1), imp("import", &["b.j"])));
+		b.code(&["d", "b.j"], &add(imp("import", &["sa.j"]), E::Lit(1)));
+		b.link(&["d", "sa.j"], &["d", "a.j"]);
+		b.code(&["d", "z.j"], &E::Lit(9));
+	};
+	push("2-cycle", &two, vec![op("import", a()), op("import", sp(false, &["b.j"])), op("import", sp(false, &["z.j"]))]);
+	let three = |b: &mut Builder| {
+		b.code(&["d", "a.j"], &imp("import", &["b.j"]));
+		b.code(&["J1", "b.j"], &imp("import", &["c.j"]));
+		b.code(&["J2", "c.j"], &add(E::Lit(1), E::Imp("import", sp(true, &["d", "a.j"]))));
+		b.code(&["d", "z.j"], &E::Lit(9));
+	};
+	push("3-cycle", &three, vec![op("import", a()), op("import", sp(false, &["c.j"])), op("import", sp(false, &["z.j"]))]);
+	// lazy cycles: the cyclic import sits in a field that is never forced
+	let lazy = |b: &mut Builder| {
+		b.code(&["d", "a.j"], &pick(add(E::Lit(1), imp("import", &["b.j"])), imp("import", &["a.j"])));
+		b.code(&["d", "b.j"], &pick(E::Lit(4), add(imp("import", &["a.j"]), imp("import", &["nowhere.j"]))));
+		b.code(&["d", "z.j"], &E::Lit(9));
+	};
+	push("lazy-cycle", &lazy, vec![op("import", a()), op("import", sp(false, &["b.j"])), op("import", a())]);
+	// shadowing: importer dir > J2 > J1 > E1 (jpaths are given in final priority order)
+	for (i, placed) in [
+		&["d", "J2", "J1", "E1"][..],
+		&["J2", "J1", "E1"][..],
+		&["J1", "E1"][..],
+		&["E1"][..],
+		&[][..],
+		&["J1", "J2"][..],
+		&["E1", "J2"][..],
+	]
+	.iter()
+	.enumerate()
+	{
+		for kind in ["import", "str", "bin"] {
+			let shadow = |b: &mut Builder| {
+				for (n, dir) in ["d", "J2", "J1", "E1"].iter().enumerate() {
+					if placed.contains(dir) {
+						b.code(&[dir, "n.j"], &E::Lit(10 + n as u64));
+					}
+				}
+				b.code(&["d", "a.j"], &add(E::Lit(100), imp(kind, &["n.j"])));
+				b.code(&["J1", "m.j"], &add(E::Lit(200), imp(kind, &["n.j"])));
+			};
+			push(
+				&format!("shadow-{i}-{kind}"),
+				&shadow,
+				vec![op(kind, sp(false, &["n.j"])), op("import", a()), op("import", sp(false, &["m.j"]))],
+			);
+		}
+	}
+	// spellings and bad targets
+	let spell = |b: &mut Builder| {
+		b.code(&["d", "a.j"], &E::Lit(1));
+		b.code(&["d", "sub", "a.j"], &E::Lit(2));
+		b.code(&["J1", "a.j"], &E::Lit(3));
+		b.code(&["J1", "only.j"], &E::Lit(4));
+		b.link(&["d", "sa.j"], &["J1", "a.j"]);
+		b.link(&["d", "dangling.j"], &["J1", "nothing.j"]);
+		b.link(&["d", "ld"], &["J1"]);
+		b.link(&["J1", "dangling.j"], &["d", "a.j"]);
+		b.raw(&["d", "x.bin"], BAD_UTF8, json!("syntax"));
+		b.raw(&["d", "t.txt"], UTF8_TEXT.as_bytes(), json!("syntax"));
+		b.raw(&["d", "bad.j"], b"{{{", json!("syntax"));
+		b.raw(&["d", "num.j"], b"42", json!(42));
+		b.raw(&["d", "empty.j"], b"", json!("syntax"));
+		b.dir(&["J2", "dirt.j"]);
+		b.code(&["J1", "dirt.j"], &E::Lit(6));
+		b.code(&["J1", "x"], &E::Lit(8));
+		b.dir(&["J1", "a.j.d"]);
+	};
+	let spellings: Vec<Value> = vec![
+		sp(false, &["a.j"]),
+		sp(false, &[".", "a.j"]),
+		sp(false, &["..", "d", "a.j"]),
+		sp(false, &["sub", "a.j"]),
+		sp(false, &["sub", "..", "a.j"]),
+		sp(false, &["sa.j"]),
+		sp(true, &["J1", "a.j"]),
+		sp(true, &["nowhere", "a.j"]),
+		sp(false, &["only.j"]),
+		sp(false, &["..", "J1", "only.j"]),
+		sp(false, &["ld", "a.j"]),
+		sp(false, &["ld", "..", "d", "a.j"]),
+		sp(false, &["dangling.j"]),
+		sp(false, &["missing.j"]),
+		sp(false, &["nosuchdir", "..", "a.j"]),
+		sp(false, &["a.j", "x"]),
+		sp(false, &["a.j", "..", "a.j"]),
+		sp(false, &["sub"]),
+		sp(false, &["dirt.j"]),
+		sp(false, &["."]),
+		sp(false, &["x.bin"]),
+		sp(false, &["t.txt"]),
+		sp(false, &["bad.j"]),
+		sp(false, &["num.j"]),
+		sp(false, &["empty.j"]),
+	];
+	for (i, s) in spellings.iter().enumerate() {
+		for order in [["import", "str", "bin"], ["bin", "import", "str"], ["str", "bin", "import"]] {
+			push(
+				&format!("spelling-{i}"),
+				&spell,
+				order.iter().map(|k| op(k, s.clone())).collect(),
+			);
+		}
+	}
+	// a fault at every resolver step of the diamond and of the 3-cycle, then retry, then others
+	for k in 1..=12 {
+		for mode in ["fail", "vanish"] {
+			push(
+				&format!("fault-diamond-{k}-{mode}"),
+				&diamond,
+				vec![
+					op_fault("import", a(), k, mode),
+					op("import", sp(false, &["z.j"])),
+					op("import", a()),
+					op_fault("import", a(), 1, mode),
+					op_fault("str", sp(false, &["t.txt"]), k.min(2), mode),
+					op("bin", sp(false, &["t.txt"])),
+				],
+			);
+			push(
+				&format!("fault-tree-{k}-{mode}"),
+				&tree,
+				vec![op_fault("import", a(), k, mode), op("import", a()), op("import", sp(false, &["z.j"]))],
+			);
+		}
+		push(
+			&format!("fault-3cycle-{k}"),
+			&three,
+			vec![op_fault("import", a(), k, "fail"), op("import", sp(false, &["z.j"])), op("import", a())],
+		);
+	}
+	out
+}
+
+const DIRS: &[&[&str]] = &[&["d"], &["d", "sub"], &["J1"], &["J2"], &["E1"]];
+const NAMES: &[&str] = &["a.j", "b.j", "c.j", "e.j"];
+const DATA: &[&str] = &["t.txt", "x.bin", "bad.j", "num.j"];
+
+fn rand_spelling(r: &mut Rng, home: &[&str], name: &'static str) -> Value {
+	match r.below(22) {
+		16..=21 => sp(false, &[name]),
+		0..=5 => sp(false, &[name]),
+		6 => sp(false, &[".", name]),
+		7 => {
+			if home.len() == 1 {
+				sp(false, &["..", home[0], name])
+			} else {
+				sp(false, &["..", name])
+			}
+		}
+		8 => sp(false, &["sub", "..", name]),
+		9 => {
+			let l: &'static str = match name {
+				"a.j" => "sa.j",
+				"b.j" => "sb.j",
+				"c.j" => "sc.j",
+				"e.j" => "se.j",
+				_ => "st.txt",
+			};
+			sp(false, &[l])
+		}
+		10 | 11 => {
+			let d = *r.pick(DIRS);
+			let mut c: Vec<&str> = d.to_vec();
+			c.push(name);
+			sp(true, &c)
+		}
+		12 => sp(false, &["sub", name]),
+		13 => sp(false, &["ld", name]),
+		14 => sp(false, &[name, "x"]),
+		_ => sp(false, &[*r.pick(&["sub", "missing.j", "..", "dangling.j", "J1"])]),
+	}
+}
+
+fn rand_expr(r: &mut Rng, depth: usize, home: &[&str], nn: usize) -> E {
+	let leaf = depth == 0 || r.chance(1, 3);
+	if leaf {
+		if r.chance(1, 4) {
+			return E::Lit(r.below(9) as u64 + 1);
+		}
+		let kind = *r.pick(&["import", "import", "import", "str", "bin"]);
+		let name: &'static str = if r.chance(1, 8) { *r.pick(DATA) } else { *r.pick(&NAMES[..nn]) };
+		return E::Imp(kind, rand_spelling(r, home, name));
+	}
+	let a = rand_expr(r, depth - 1, home, nn);
+	let b = rand_expr(r, depth - 1, home, nn);
+	if r.chance(1, 3) {
+		pick(a, b)
+	} else {
+		add(a, b)
+	}
+}
+
+fn random_scenario(r: &mut Rng, root: &str) -> Value {
+	let mut b = Builder::new(root);
+	skeleton(&mut b);
+	// links first (they take their names), targets may or may not exist
+	for (l, n) in [("sa.j", "a.j"), ("sb.j", "b.j"), ("sc.j", "c.j"), ("se.j", "e.j"), ("st.txt", "t.txt")] {
+		if r.chance(2, 3) {
+			let d = *r.pick(DIRS);
+			let mut to: Vec<&str> = d.to_vec();
+			to.push(n);
+			let host = *r.pick(&[&["d"][..], &["J1"][..], &["d", "sub"][..]]);
+			let mut p: Vec<&str> = host.to_vec();
+			p.push(l);
+			b.link(&p, &to);
+		}
+	}
+	if r.chance(1, 2) {
+		b.link(&["d", "ld"], *r.pick(&[&["J1"][..], &["J2"][..], &["d", "sub"][..], &["nowhere"][..]]));
+	}
+	if r.chance(1, 3) {
+		b.link(&["d", "dangling.j"], &["J2", "nothing"]);
+	}
+	// fewer files -> more interesting sharing; each name lives in 0..3 directories
+	let n_names = 2 + r.below(3);
+	for name in &NAMES[..n_names] {
+		let copies = 1 + r.below(3);
+		for _ in 0..copies {
+			let d = if r.chance(1, 2) { &["d"][..] } else { *r.pick(DIRS) };
+			let mut p: Vec<&str> = d.to_vec();
+			p.push(name);
+			let depth = r.below(3);
+			let e = rand_expr(r, depth, d, n_names);
+			b.code(&p, &e);
+		}
+	}
+	for name in DATA {
+		if r.chance(1, 2) {
+			let d = *r.pick(DIRS);
+			let mut p: Vec<&str> = d.to_vec();
+			p.push(name);
+			match *name {
+				"t.txt" => b.raw(&p, UTF8_TEXT.as_bytes(), json!("syntax")),
+				"x.bin" => b.raw(&p, BAD_UTF8, json!("syntax")),
+				"bad.j" => b.raw(&p, b"local x = ; x", json!("syntax")),
+				_ => {
+					let n = r.below(90) + 10;
+					b.raw(&p, format!("{n}").as_bytes(), json!(n));
+				}
+			}
+		}
+	}
+	let from: &[&str] = if r.chance(1, 5) { &["d", "sub"] } else { &["d"] };
+	let all_j: &[&[&str]] = &[&["J1"], &["J2"], &["E1"], &["J1"], &["J2"], &["JX"], &["d", "sub"], &["d"]];
+	let nj = 1 + r.below(4);
+	let mut jpaths: Vec<&[&str]> = Vec::new();
+	for _ in 0..nj {
+		jpaths.push(*r.pick(all_j));
+	}
+	let nops = 2 + r.below(4);
+	let mut ops = Vec::new();
+	for _ in 0..nops {
+		let kind = *r.pick(&["import", "import", "import", "str", "bin"]);
+		let name: &'static str = if r.chance(1, 6) { *r.pick(DATA) } else { *r.pick(&NAMES[..n_names]) };
+		let s = rand_spelling(r, from, name);
+		if r.chance(1, 4) {
+			let mode = if r.chance(1, 3) { "vanish" } else { "fail" };
+			ops.push(op_fault(kind, s, 1 + r.below(8), mode));
+		} else {
+			ops.push(op(kind, s));
+		}
+	}
+	scenario(b, from, &jpaths, ops, "random")
+}
+
+// ------------------------------------------------------------------------------------------
+// engines
+// ------------------------------------------------------------------------------------------
+
+fn emit(w: &mut CaseWriter, sc: &Value, root: &Path, hist: &mut BTreeMap<String, usize>) {
+	let results = run_scenario(sc, root);
+	let mut full = sc.clone();
+	full["op"] = json!("import.replay");
+	let res: Vec<Value> = results
+		.iter()
+		.map(|(o, l)| json!({"out": o, "log": l}))
+		.collect();
+	w.case(full, json!({"res": res}));
+	let mut outs = sc.clone();
+	outs["op"] = json!("import.outcomes");
+	let empty = Vec::new();
+	let ops = sc["ops"].as_array().unwrap_or(&empty);
+	let res: Vec<Value> = results
+		.iter()
+		.zip(ops)
+		.map(|((o, _), op)| if op["fault"].is_null() { o.clone() } else { json!({"faulted": true, "_out": o}) })
+		.collect();
+	w.case(outs, json!({"res": res, "once": once_only(&results)}));
+	for (o, l) in &results {
+		let k = if let Some(e) = o["err"].as_str() {
+			format!("err:{e}")
+		} else if o["panic"].is_string() {
+			"panic".to_owned()
+		} else {
+			"value".to_owned()
+		};
+		*hist.entry(format!("outcome {k}")).or_default() += 1;
+		*hist.entry(format!("log-len {}", l.len().min(12))).or_default() += 1;
+	}
+	*hist
+		.entry(format!("shape {}", sc["_shape"].as_str().unwrap_or("?").split('-').next().unwrap_or("?")))
+		.or_default() += 1;
+}
+
+fn sandbox_root(opts: &Opts) -> PathBuf {
+	fs::create_dir_all(&opts.out).expect("mkdir out");
+	let base = fs::canonicalize(&opts.out).expect("canonicalize out dir");
+	base.join("sandbox")
+}
+
+fn run_inproc(opts: &Opts) {
+	let root = sandbox_root(opts);
+	let root_s = root.to_string_lossy().into_owned();
+	let mut w = CaseWriter::new(&opts.out);
+	let mut hist = BTreeMap::new();
+	if let Some(rp) = &opts.replay {
+		let v: Value = serde_json::from_str(&fs::read_to_string(rp).expect("replay file")).expect("replay json");
+		let sc = if v["op"].is_object() { v["op"].clone() } else { v };
+		emit(&mut w, &sc, &root, &mut hist);
+	} else {
+		for sc in systematic(&root_s) {
+			emit(&mut w, &sc, &root, &mut hist);
+		}
+		let mut r = Rng::new(opts.seed);
+		let n = if opts.thorough() { 30000 } else { 2000 };
+		for _ in 0..n {
+			let sc = random_scenario(&mut r, &root_s);
+			emit(&mut w, &sc, &root, &mut hist);
+		}
+	}
+	let _ = fs::remove_dir_all(&root);
+	let n = w.n;
+	w.finish(
+		json!({"engine":"c07","cases":n,"histogram":hist,
+			"rule":"hand-written import graphs (tree, diamond, self/2/3-cycle, lazy cycle, shadowing over importer dir/J2/J1/E1 x kind, 25 spellings x 3 kind orders, a fault at each of 12 resolver steps x {injected failure, file vanishes before load}) + seeded random layouts (<=4 code names x <=3 copies over 5 directories, symlinks to files and directories, dangling links, data files valid/invalid UTF-8/syntax error) with 2-5 operations on ONE real State through a recording wrapper around the real FileImportResolver"}),
+		&opts.out,
+	);
+}
+
+/// `jrsonnet -J .. -J .. main` with JSONNET_PATH: outcome only
+fn run_cli(opts: &Opts) {
+	let root = sandbox_root(opts);
+	let root_s = root.to_string_lossy().into_owned();
+	let mut w = CaseWriter::new(&opts.out);
+	let bin = std::env::var("VERIF_BIN_DIR").map(|d| PathBuf::from(d).join("jrsonnet"));
+	let mut hist: BTreeMap<String, usize> = BTreeMap::new();
+	let Ok(bin) = bin else {
+		w.finish(json!({"engine":"c07cli","cases":0,"rule":"VERIF_BIN_DIR unset"}), &opts.out);
+		return;
+	};
+	let mut r = Rng::new(opts.seed ^ 0xC07);
+	let n = if opts.thorough() { 400 } else { 80 };
+	let pool: &[&str] = &["J1", "J2", "J3", "E1", "E2", "JX"];
+	for i in 0..n {
+		let mut b = Builder::new(&root_s);
+		b.dir(&["d"]);
+		for p in &pool[..5] {
+			b.dir(&[p]);
+		}
+		let kind = *r.pick(&["import", "str", "bin"]);
+		b.code(&["d", "main.j"], &add(E::Lit(1000), imp(kind, &["n.j"])));
+		for (k, p) in pool[..5].iter().enumerate() {
+			if r.chance(1, 2) {
+				b.code(&[p, "n.j"], &E::Lit(10 + k as u64));
+			}
+		}
+		if i % 7 == 0 {
+			b.code(&["d", "n.j"], &E::Lit(7));
+		}
+		let nflags = r.below(4);
+		let nenv = r.below(3);
+		let jflags: Vec<&str> = (0..nflags).map(|_| *r.pick(pool)).collect();
+		let env: Vec<&str> = (0..nenv).map(|_| *r.pick(pool)).collect();
+		let sc = json!({"op":"import.cli","fs":b.nodes,"from":["d"],
+			"jflags": jflags.iter().map(|j| vec![*j]).collect::<Vec<_>>(),
+			"env": env.iter().map(|j| vec![*j]).collect::<Vec<_>>(),
+			"ops":[{"kind":"import","sp":{"abs":false,"c":["main.j"]},"fault":null}],
+			"size": 3 + nflags + nenv});
+		materialise(&sc, &root);
+		let mut cmd = Command::new(&bin);
+		for j in &jflags {
+			cmd.arg("-J").arg(root.join(j));
+		}
+		cmd.arg(root.join("d").join("main.j"));
+		if nenv == 0 && r.chance(1, 2) {
+			cmd.env_remove("JSONNET_PATH");
+		} else {
+			let joined = std::env::join_paths(env.iter().map(|e| root.join(e))).expect("join");
+			cmd.env("JSONNET_PATH", joined);
+		}
+		let ans = match cmd.output() {
+			Ok(o) if o.status.success() => {
+				let t = String::from_utf8_lossy(&o.stdout).trim().to_owned();
+				match t.parse::<u64>() {
+					Ok(n) => json!({"res":[{"num": n}]}),
+					Err(_) => json!({"res":[{"other": t}]}),
+				}
+			}
+			Ok(o) => {
+				let t = String::from_utf8_lossy(&o.stderr).into_owned();
+				let c = if t.contains("can't resolve") { "notfound" } else { "other" };
+				json!({"res":[{"err": c, "_msg": t}]})
+			}
+			Err(e) => json!({"res":[{"spawn": e.to_string()}]}),
+		};
+		*hist.entry(format!("flags {nflags} env {nenv}")).or_default() += 1;
+		w.case(sc, ans);
+	}
+	let _ = fs::remove_dir_all(&root);
+	let n = w.n;
+	w.finish(
+		json!({"engine":"c07cli","cases":n,"histogram":hist,
+			"rule":"real jrsonnet binary, 0-3 -J flags and 0-2 JSONNET_PATH entries drawn (with repetition) from 5 directories + a missing one, the imported name present in a random subset"}),
+		&opts.out,
+	);
+}
 
 pub fn run(opts: &Opts) {
-	let w = CaseWriter::new(&opts.out);
-	w.finish(serde_json::json!({"engine":"c07","cases":0,"rule":"stub"}), &opts.out);
+	if opts.engine == "c07cli" {
+		run_cli(opts);
+	} else {
+		run_inproc(opts);
+	}
 }
